@@ -20,7 +20,9 @@ ID = 'C19'
 LEVEL = 'exploration'
 ENGINE = 'E2'
 EXHAUSTIVE = True
-RULE = ('(wave 3: source states as lists / ndarrays / set through inc.variable; second transfer with the mappings '
+RULE = ('(wave 4: sources carrying none / porosity / + permeability / + nseq,nadd, compared as whole block states; '
+        'source block order geometry / reversed; per pair a history map, map again, translate and rotate the source, then '
+        'the target, in place, each judged against the reference recomputed) (wave 3: source states as lists / ndarrays / set through inc.variable; second transfer with the mappings '
         'passed in; model cases with empty lists left at their defaults, alone and after a primer call with other '
         'top/bottom lists; arguments compared before/after) mapping cases: ordered pair of family geometries (incl. identity: same object and an equal copy) x source '
         'atmosphere type x target atmosphere type x (source, target) naming convention; every target block is one '
@@ -38,8 +40,8 @@ ASSUMPTIONS = [
     'atmosphere images are asserted only when the source has atmosphere blocks; target type 0 <- source type 1 '
     'accepts any source atmosphere block',
     'block names are decoded through the library\'s own block_name()/layer/column tables (naming is C17\'s subject)',
-    'initial conditions are built in the source geometry\'s block order (atmosphere blocks first), which '
-    't2incon.transfer_from relies on (sourceinc[0] is the atmosphere block)',
+    'initial conditions are built in the source geometry\'s block order (atmosphere blocks first) and, at 2 '
+    'variables, also in reversed order (a t2incon is keyed by block name; its order is not part of the statement)',
     'model transfer is asserted on identical geometries only (statement); a listed top (bottom) category is only given '
     'to generators in the top (bottom) block of a column; generator names are <column of the block><category> '
     '(canonical), <another column><category> or <no column><category>; the name is expected to be kept, except that '
@@ -279,15 +281,24 @@ def check_mapping(mapping, ps, pt, same, mp):
 STATES = ('list', 'array', 'setvar')
 
 
-def make_incon(ps, nvar, states='list'):
+EXTRAS = ('none', 'porosity', 'permeability', 'nseq')     # cumulative: each level adds to the one before
+
+
+def make_incon(ps, nvar, states='list', extra='porosity', order='geometry'):
     """Source initial conditions; the states are held as lists (constructor), as one float ndarray per block, or
     set through the documented `inc.variable = <2-D array>` (every block then holds a row view of that array)."""
     import numpy as np
     from t2incons import t2incon, t2blockincon
     inc = t2incon()
-    for k, name in enumerate(ps['names']):
+    lvl = EXTRAS.index(extra)
+    items = list(enumerate(ps['names']))
+    if order == 'reversed':                 # a legal t2incon need not list its blocks in geometry order
+        items.reverse()
+    for k, name in items:
         inc[name] = t2blockincon([1000.0 * (k + 1) + v + 0.5 for v in range(nvar)], block=name,
-                                 porosity=0.01 + 1e-5 * k)
+                                 porosity=(0.01 + 1e-5 * k) if lvl >= 1 else None,
+                                 permeability=np.array([1e-15 * (k + 1), 2e-15 * (k + 1), 1e-16 * (k + 2)]) if lvl >= 2 else None,
+                                 nseq=(k % 7 + 1) if lvl >= 3 else None, nadd=(k + 1) if lvl >= 3 else None)
     if states == 'array':
         for b in inc:
             b.variable = np.array(b.variable, dtype=float)
@@ -296,12 +307,33 @@ def make_incon(ps, nvar, states='list'):
     return inc
 
 
+def block_state(b):
+    """The whole state of one t2blockincon: variables, porosity, permeability, nseq, nadd."""
+    perm = None if b.permeability is None else tuple(float(v) for v in b.permeability)
+    return (b.block, tuple(float(v) for v in b.variable), b.porosity, perm, b.nseq, b.nadd)
+
+
 def snapshot(inc):
-    return [(b.block, tuple(float(v) for v in b.variable), b.porosity) for b in inc]
+    return [block_state(b) for b in inc]
+
+
+def same_extras(b, srcstate):
+    got = block_state(b)
+    for k, field in ((2, 'porosity'), (3, 'permeability'), (4, 'nseq'), (5, 'nadd')):
+        if got[k] != srcstate[k]:
+            return '%s %r, its source block %r has %r' % (field, got[k], srcstate[0], srcstate[k])
+    return None
 
 
 def state_sets(nvar, full):
-    return STATES if (nvar == 2 or (full and nvar in (1, 5))) else STATES[:1]
+    """(representation of the states, optional fields carried, block order of the source) per variable count."""
+    out = [('list', 'porosity', 'geometry')]
+    if nvar == 2 or (full and nvar in (1, 5)):
+        out += [(st, 'porosity', 'geometry') for st in STATES[1:]]
+    if nvar == 2 or (full and nvar == 5):
+        out += [('list', ex, 'geometry') for ex in EXTRAS if ex != 'porosity']
+        out += [('list', 'nseq', 'reversed'), ('setvar', 'permeability', 'reversed')]
+    return out
 
 
 def check_incon(new, src_before, src_after, ps, pt, nvar, mp):
@@ -331,10 +363,17 @@ def check_incon(new, src_before, src_after, ps, pt, nvar, mp):
                 if src is None or src not in ps['atm'] or ps['atm'][src] not in near:
                     return ('atmosphere-state', 'atmosphere block %r got state %r (source block %r), not that of the '
                             'atmosphere block over a nearest source column' % (name, var, src), atmclass)
+                bad = same_extras(b, state[src])
+                if bad:
+                    return ('atmosphere-state', 'atmosphere block %r got %s' % (name, bad), atmclass + ',optional-fields')
                 continue
             if len(var) != len(want) or any(abs(a - w) > 1e-12 * abs(w) for a, w in zip(var, want)):
                 return ('atmosphere-state', 'atmosphere block %r got state %r, expected the %s %r'
                         % (name, var, how, want), atmclass)
+            if ps['type'] == 0:
+                bad = same_extras(b, state[ps['names'][0]])
+                if bad:
+                    return ('atmosphere-state', 'atmosphere block %r got %s' % (name, bad), atmclass + ',optional-fields')
             continue
         src = byvar.get(var)
         if src is None:
@@ -344,9 +383,9 @@ def check_incon(new, src_before, src_after, ps, pt, nvar, mp):
         if src not in ps['under'] or ps['under'][src] not in ok:
             return ('underground-state', 'block %r got the state of source block %r, not of a nearest block' % (name, src),
                     'source-surface=' + surface_class(ps))
-        if b.porosity != state[src][2]:
-            return ('underground-state', 'block %r got porosity %r, its source block %r has %r'
-                    % (name, b.porosity, src, state[src][2]), 'porosity')
+        bad = same_extras(b, state[src])
+        if bad:
+            return ('underground-state', 'block %r got %s' % (name, bad), 'optional-fields')
     return None
 
 
@@ -402,11 +441,13 @@ def run_map_case(s, t, cs, ct, ats, att, variant, rec=None, full=False):
             set_atm(tgt, att)
     stop = False
     for nvar in range(1, 6):
-        for states in state_sets(nvar, full):
-            inc = make_incon(ps, nvar, states)
+        for states, extra, order in state_sets(nvar, full):
+            inc = make_incon(ps, nvar, states, extra, order)
             before = snapshot(inc)
             new = t2incon()
             sfx = '' if states == 'list' else ',states=' + states
+            if order != 'geometry':
+                sfx += ',source-order=' + order
             try:
                 with quiet():
                     with core.timelimit(120):
@@ -434,7 +475,7 @@ def run_map_case(s, t, cs, ct, ats, att, variant, rec=None, full=False):
                 break
             # repeatability and arguments: a second transfer from the same source, this time with the
             # mappings passed in, gives the same result and leaves source and mappings as they were
-            if mapping is not None and nvar == 2:
+            if mapping is not None and nvar == 2 and extra == 'porosity' and order == 'geometry':
                 m0, c0 = dict(mapping), dict(colmap)
                 again = t2incon()
                 try:
@@ -493,7 +534,77 @@ def run_map_case(s, t, cs, ct, ats, att, variant, rec=None, full=False):
     return out
 
 
+HISTORY = ('first', 'second-call', 'translate-source', 'rotate-source', 'translate-target', 'rotate-target')
+
+
+def run_history_case(case, rec=None):
+    """One pair, a history: map; map again (must equal the first); then the source, later the target, is moved IN
+    PLACE (translate, rotate) and after every move the mapping and an incon transfer are judged against the
+    brute-force reference recomputed from the geometries as they now are."""
+    import numpy as np
+    from t2incons import t2incon
+    s, t, cs, ct = case['s'], case['t'], case['cs'], case['ct']
+    base_s, base_t = geometry(s, cs, 0), geometry(t, ct, 0)
+    set_atm(base_s, 1)
+    set_atm(base_t, 1)
+    src, tgt = deep(base_s), deep(base_t)
+    out, first = [], None
+    for step in HISTORY:
+        geo = src if step.endswith('source') else tgt
+        with quiet():
+            if step.startswith('translate'):
+                geo.translate(np.array([1300., -700., 150.]))
+            elif step.startswith('rotate'):
+                geo.rotate(30.)
+        ps, pt = plain(src), plain(tgt)
+        mp = mm.Mapper(pt['cols'], pt['lays'], ps['cols'], ps['lays'], ps['scale_xy'], ps['scale_z'])
+        cls = 'after=' + step
+        try:
+            with quiet():
+                with core.timelimit(120):
+                    mapping, colmap = src.block_mapping(tgt, True)
+        except Exception as e:
+            out.append(('C19|block_mapping|exception:%s|%s' % (type(e).__name__, cls),
+                        'block_mapping(%s -> %s) raised %r' % (s, t, e)))
+            break
+        if rec is not None:
+            rec.count('history_mappings', 1)
+        if step == 'first':
+            first = (dict(mapping), dict(colmap))
+        elif step == 'second-call':
+            if (mapping, colmap) != first:
+                out.append(('C19|block_mapping|second-call-differs|' + cls,
+                            '%s -> %s: a second block_mapping of the same two geometries differs from the first' % (s, t)))
+                break
+            continue
+        same = (step == 'first' and s == t and ps['names'] == pt['names'] and (cs == ct or s in 'IJ'))
+        r = check_mapping(mapping, ps, pt, same, mp)
+        if r is not None:
+            out.append(('C19|block_mapping|%s|%s,%s' % (r[0], r[2], cls), '%s -> %s: %s' % (s, t, r[1])))
+            break
+        inc = make_incon(ps, 2)
+        before = snapshot(inc)
+        new = t2incon()
+        try:
+            with quiet():
+                with core.timelimit(120):
+                    new.transfer_from(inc, src, tgt)
+        except Exception as e:
+            out.append(('C19|t2incon.transfer_from|exception:%s|%s' % (type(e).__name__, cls),
+                        'transfer_from(%s -> %s) raised %r' % (s, t, e)))
+            break
+        r = check_incon(new, before, snapshot(inc), ps, pt, 2, mp)
+        if rec is not None:
+            rec.count('blocks_compared', 2 * len(pt['names']))
+        if r is not None:
+            out.append(('C19|t2incon.transfer_from|%s|%s,%s' % (r[0], r[2], cls), '%s -> %s: %s' % (s, t, r[1])))
+            break
+    return out
+
+
 def map_cases(s, t, tier):
+    cs, ct = conv_pairs(s, t, tier)[0]
+    yield {'kind': 'history', 's': s, 't': t, 'cs': cs, 'ct': ct}
     for cs, ct in conv_pairs(s, t, tier):
         for ats in (0, 1, 2):
             for att in (0, 1, 2):
@@ -737,6 +848,8 @@ def case_key(c):
 
 
 def run_case(case, rec=None):
+    if case['kind'] == 'history':
+        return run_history_case(case, rec)
     if case['kind'] == 'map':
         return run_map_case(case['s'], case['t'], case['cs'], case['ct'], case['ats'], case['att'], case['variant'], rec,
                             bool(case.get('full')))
